@@ -500,6 +500,8 @@ def rule_bounds(repo, rep):
     xd = [s_ for s_ in none_body if isinstance(s_, ast.Assign) and
           ast.unparse(s_.targets[0]) == src.args[0].id]
     xdef = ast.unparse(xd[0].value) if xd else None
+  elif ok_src:
+    xdef = ast.unparse(src.args[0])
   if qs is None or not ok_src or xdef is None:
     rep.unknown(R, key, site(f, st_[0]), 'form %s' % ast.unparse(call))
   elif list(qs) == [5, 95] and xdef in (
